@@ -407,6 +407,46 @@ def isFreeNumber : List Char → Bool
   | [] => false
   | c :: t => if c == '+' || c == '-' then unsignedOK t else unsignedOK (c :: t)
 
+/-! ## residue suffix on a restraint codeword (`DFIX_2`, `SADI_CCF3`, `DELU_*`) -/
+
+/-- MODEL of the name a restraint compares in `_set_defs_values`: `spline[0].upper().split('_')[0]` -/
+def nameOf (cw : List Char) : List Char := (cw.map Char.toUpper).takeWhile (fun c => c != '_')
+
+inductive Suffix
+  | none | num (n : Nat) | cls (s : String) | star
+deriving DecidableEq, Repr
+
+/-- `Residues.append`: class (upper case) -> residue numbers in file order; a residue without class is not filed -/
+def dictAppend : List (String × List Nat) → String → Nat → List (String × List Nat)
+  | [], k, v => [(k, [v])]
+  | (k', vs) :: t, k, v => if k' == k then (k', vs ++ [v]) :: t else (k', vs) :: dictAppend t k v
+
+def classDict (res : List (String × Nat)) : List (String × List Nat) :=
+  res.foldl (fun d r => if r.1 == "" then d else dictAppend d r.1 r.2) []
+
+def dictGet (d : List (String × List Nat)) (k : String) : Option (List Nat) := (d.find? (fun kv => kv.1 == k)).map (·.2)
+
+/-- dict keys of `residue_numbers` (number -> class): first occurrence order, each number once -/
+def dedup : List Nat → List Nat
+  | [] => []
+  | a :: t => a :: (dedup t).filter (fun b => b != a)
+
+/-- MODEL of `Restraint.residue_class` / `Residue.residue_number`; `res` = the RESI instructions with number > 0 in file
+    order, classes already upper-cased -/
+def modelResidue (res : List (String × Nat)) : Suffix → String × List Nat
+  | .none => ("", (dictGet (classDict res) "").getD [0])
+  | .num n => ("", [n])
+  | .cls s => (s, (dictGet (classDict res) s).getD [0])
+  | .star => ("", dedup (res.map (·.2)))
+
+/-- SPEC: the residues a codeword suffix addresses: none -> residue 0; `_n` -> n; `_CLASS` -> every residue of that class;
+    `_*` -> every residue -/
+def specResidue (res : List (String × Nat)) : Suffix → String × List Nat
+  | .none => ("", [0])
+  | .num n => ("", [n])
+  | .cls s => (s, (res.filter (fun r => r.1 == s)).map (·.2))
+  | .star => ("", res.map (·.2))
+
 /-! ## hand-written models of the classes that are not table shaped -/
 
 /-- `PART.__init__`: `n = int(p[0])` under try/except IndexError -> 0; `sof = float(p[1])` if present -/
